@@ -429,7 +429,7 @@ def durability_assumption(chk):
         chk.violation("correspondence", "no sqlite connection of the version index could be inspected", {"theorem_or_tie": "durability assumption of the crash model"}, found_input=False)
 
 
-def slow_consumer(chk):
+def slow_consumer(chk, stall=7.0):
     """"at every instant": whoever reads Conductor's own stdout stalls (a pager, a paused terminal, a slow log collector)
     while a sequential experiment has written more than fits through; the task itself can still exit 0.  As long as the
     forwarding has not finished, stdout.log is incomplete -- and no version row may be visible for it."""
@@ -446,7 +446,7 @@ def slow_consumer(chk):
     problems = []
     t0 = time.time()
     seen_row_early = None
-    while time.time() - t0 < 6.0:      # nobody reads p.stdout during this time
+    while time.time() - t0 < stall:      # nobody reads p.stdout during this time
         rows = implrun.index_rows(root, while_running=True)
         if rows:
             vd = os.path.join(root, "cond-out", "e.task.%d" % rows[0][1], "stdout.log")
@@ -475,7 +475,7 @@ def slow_consumer(chk):
         problems.append("harness: cond exited %s: %r" % (p.returncode, (out + err)[-200:]))
     for msg in problems:
         chk.violation("impl-violation", "sequential experiment with a stalled reader of Conductor's stdout: %s" % msg,
-                      {"input": {"part": "slow-consumer", "bytes": n, "stall_s": 6}, "impl_observation": {"exit": p.returncode, "rows": [list(r) for r in rows]}}, match_key={"slow-consumer": msg.split(" ")[0]}, size=1)
+                      {"input": {"part": "slow-consumer", "bytes": n, "stall_s": stall}, "impl_observation": {"exit": p.returncode, "rows": [list(r) for r in rows]}}, match_key={"slow-consumer": msg.split(" ")[0]}, size=1)
     if not problems:
         chk.coverage["traces_validated_against_impl"] += 1
 
